@@ -48,6 +48,9 @@ def main():
             extra.append(ls[-1])
     if extra:
         sec.append("  Further sweeps on the same tree after the validation run: " + "; ".join(extra) + ".")
+    rv = read("validation/revalidation_after_corrections.log").strip()
+    if rv:
+        sec.append("  " + rv.replace("\n- ", " (a) ", 1).replace("\n- ", "; ").replace("\n", " "))
     sec.append(f"* **Sensitivity, seeded changes** - {total} property-breaking changes seeded by fresh sub-agents that saw only the property text(s) and their own scratch worktree, never /verif (eight rounds: free choice; other mechanisms / implicit solvers / cooperating sites; history-dependent; option interactions; one component each with all eleven property texts; unusual but valid API usage; realistic maintainer intent - optimisation, hardening, refactoring, SciPy compatibility, solution assembly, sign handling; and, after the mechanical campaigns, one area each - error-recovery paths, degenerate runs, the public configuration API, statistics under unusual paths, control-flag handling, the output handler's state). Every change was confirmed independently (`tools/confirm_mutants.sh`: the 42-test suite passes with it, its demonstration fails with it and passes without it) and then run against every claimed check's quick tier (`tools/mutant_matrix.sh`, on scratch worktrees, four at a time). Result: **{caught}/{total} caught, {own}/{total} by the check of the property the seeder named.**")
     sec.append("  Twenty-odd changes were missed by the checks as they stood when the change arrived; each miss led to a strengthening of generators or oracles (recorded in the commit history of /verif), after which the whole set was re-run. Rounds 1-4: runs with `first_step` in C08 and C06 (C08B, C06E); absolute scales near the code's constants and first-attempt / RK4 clauses on the RHS seam in C11 (C11A, C11B); RK4 steps that do not divide the interval in the base generator (C05B/C06B/C19B were first caught only by C03); a step-end cross-check in C05 that does not go through the dense output; `min_step` in C03 (C03C); intervals of a few ulps at large |x0| and a tightened stopping-point rule in C05 (C05D); landing near a small |xend| and library panics after the run in C06 (C06C); terminal events in C08 (C08G, first caught only by C10); `ControlFlag::XOut` and the low-level `dense_output` switch in the simulated SolOut's schedule (C18G, R5radauB) - which also exposed F28. Round 6 (unusual API usage) was the most productive: vector tolerances with a zero error scale (R6u1A/B), the `uround`, `beta` and `newton_maxiter` knobs (R6u2A/B), the low-level dense switch twin and the events-versus-observers clause in C12 (R6u2A, R6u6B), `XOut(xend)` (R6u4B), event functions of very different magnitudes (R6u5B - the generator extension also exposed F29), `min_step` in C11 (R6u6A). Round 7 (maintainer intent) was caught 12/12 at the first attempt, round 8 (areas suggested by the mechanical campaigns) 11/12 - the twelfth (R8q3A, `Direction::from(i32)` for |k| >= 2) after the simulator also configured directions through the integer conversion. Some seeded changes are independent rediscoveries of one mechanism (C05B = C06B = C19B; R5bdfA = C03C; R5erkB = C03A), which is itself evidence that the seeders converge on the plausible mistakes.")
     import re as _re
